@@ -17,8 +17,11 @@ Proof. exact (fun acs f a H => send_holds acs f a (send_guard_unique acs f a H))
 Print Assumptions c17_send_unique_formats.
 
 (* ---- receive_exact: for EVERY converter set, statement and allow_unknown_attributes outside
-   finding classes 1 and 2: known attributes appear under the map's local name with exactly their
-   values in order, trimmed; unknown ones are dropped / appear under their wire name *)
+   the open finding class 1 (recv_cls; classes 2 and 3 — empty NameID text, local name in another
+   case, another local name for the OID — no longer guard anything since 16472e5d / 09ff19a1):
+   known attributes appear under the map's local
+   name with exactly their values in order, trimmed, NameID-wrapped eduPersonTargetedID values
+   included; unknown ones are dropped / appear under their wire name *)
 Theorem c17_receive_exact : forall acs allow ws, recv_cls acs ws = 0 -> spec_recv acs allow ws (to_local acs allow ws).
 Proof. exact recv_correct. Qed.
 Print Assumptions c17_receive_exact.
@@ -37,9 +40,10 @@ Proof. exact unknown_allowed_holds. Qed.
 Print Assumptions c17_unknown_allowed.
 
 (* ---- send then receive *)
-(* one symmetric map: nothing is lost, aliases collapse to the canonical local name — all value lists *)
+(* one symmetric map: nothing is lost, aliases collapse to the canonical local name — ALL value
+   lists (empty strings and eduPersonTargetedID values included, whatever m calls the OID) *)
 Theorem c17_send_receive : forall m a allow xml,
-  map_symmetric m -> covered m a -> (forall e, In e a -> eptid_fine m m e) ->
+  map_symmetric m -> covered m a ->
   roundtrip [m] a (nf m) allow xml = Some (canonical m m a).
 Proof. exact send_receive. Qed.
 Print Assumptions c17_send_receive.
@@ -47,7 +51,7 @@ Print Assumptions c17_send_receive.
 (* a set of maps: s = converter from_local uses, r = converter list_to_local uses *)
 Theorem c17_send_receive_set : forall acs s r a allow xml,
   sender acs (nf s) = Some s -> receiver acs (nf s) = Some r ->
-  (forall e, In e a -> canon2 s r (fst e) <> None /\ eptid_fine s r e) ->
+  (forall e, In e a -> canon2 s r (fst e) <> None) ->
   roundtrip acs a (nf s) allow xml = Some (canonical s r a).
 Proof. exact send_receive_set. Qed.
 Print Assumptions c17_send_receive_set.
@@ -62,7 +66,7 @@ Theorem c17_canonical_meaning : forall s r a c,
 Proof. exact canonical_lookup. Qed.
 Print Assumptions c17_canonical_meaning.
 
-(* the round-trip clause of the property, outside finding classes 1 and 2, for symmetric maps *)
+(* the round-trip clause of the property, outside the open finding class 1, for symmetric maps *)
 Theorem c17_round : forall acs f a allow xml,
   round_cls acs f a = 0 -> (forall m, In m acs -> nf m = f -> map_symmetric m) ->
   spec_round acs f a (roundtrip acs a f allow xml).
@@ -112,10 +116,27 @@ Theorem c17_pair_ok_roundtrip : forall acs m k,
   pair_ok acs m k ->
   exists c, canon m k = Some c /\
     forall vs allow xml,
-      (wire_name m k = Some EPTID_OID -> c = EPTID_LOCAL /\ forall v, In v vs -> v <> "") ->
       roundtrip acs [(k, vs)] (nf m) allow xml = Some [(c, map (fun v => LStr (strip v)) vs)].
 Proof. exact pair_ok_roundtrip. Qed.
 Print Assumptions c17_pair_ok_roundtrip.
+
+(* through the five bundled converters every pair outside class 1 round-trips, all value lists *)
+Theorem c17_bundled_pair_roundtrip : forall m k,
+  In m bundled -> In k (map fst (to_ m)) -> clash_round bundled (nf m) k = false ->
+  exists c, canon m k = Some c /\
+    forall vs allow xml,
+      roundtrip bundled [(k, vs)] (nf m) allow xml = Some [(c, map (fun v => LStr (strip v)) vs)].
+Proof. exact bundled_pair_roundtrip_holds. Qed.
+Print Assumptions c17_bundled_pair_roundtrip.
+
+(* the recogniser of the repaired classes 2 and 3 used by Corr.cls never hides the open class *)
+Theorem c17_recv_cls_reg_open : forall acs ws, recv_cls acs ws <> 0 -> recv_cls_reg acs ws = recv_cls acs ws.
+Proof. exact recv_cls_reg_open. Qed.
+Print Assumptions c17_recv_cls_reg_open.
+
+Theorem c17_round_cls_reg_open : forall acs f a, round_cls acs f a <> 0 -> round_cls_reg acs f a = round_cls acs f a.
+Proof. exact round_cls_reg_open. Qed.
+Print Assumptions c17_round_cls_reg_open.
 
 (* bundled_set_consistent, guard computed from the tables (finding class 1 = clash_round) *)
 Theorem c17_bundled_set_consistent_guarded : forall m k,
@@ -139,7 +160,7 @@ Theorem c17_bundled_sender_receiver_lost : forall m, In m bundled ->
 Proof. exact bundled_sender_receiver_lost_holds. Qed.
 Print Assumptions c17_bundled_sender_receiver_lost.
 
-(* ---- at full strength the property is FALSE on the current tree (findings C17-F1, C17-F2) *)
+(* ---- at full strength the property is FALSE on the current tree (finding C17-F1) *)
 Theorem c17_bundled_set_consistent_refuted : ~ set_consistent bundled.
 Proof. exact bundled_set_consistent_refuted_holds. Qed.
 Print Assumptions c17_bundled_set_consistent_refuted.
@@ -158,7 +179,54 @@ Theorem c17_recv_refuted : exists ws, ~ spec_recv bundled false ws (to_local bun
 Proof. exact recv_refuted_holds. Qed.
 Print Assumptions c17_recv_refuted.
 
-Theorem c17_eptid_refuted :
-  exists a, ~ spec_round bundled NAME_FORMAT_URI a (roundtrip bundled a NAME_FORMAT_URI false true).
-Proof. exact eptid_refuted_holds. Qed.
-Print Assumptions c17_eptid_refuted.
+(* ---- C17-F3, repaired by 09ff19a1: the code as it was (roundtrip_v1 / to_local_v1) violated the
+   property for a map that gives the eduPersonTargetedID OID another local name ... *)
+Theorem c17_eptid_renamed_v1_refuted :
+  exists acs a, ~ spec_round acs NAME_FORMAT_URI a (roundtrip_v1 acs a NAME_FORMAT_URI false true).
+Proof. exact eptid_renamed_v1_refuted_holds. Qed.
+Print Assumptions c17_eptid_renamed_v1_refuted.
+
+Theorem c17_eptid_renamed_recv_v1_refuted : exists acs ws, ~ spec_recv acs false ws (to_local_v1 acs false ws).
+Proof. exact eptid_renamed_recv_v1_refuted_holds. Qed.
+Print Assumptions c17_eptid_renamed_recv_v1_refuted.
+
+(* ... and the same inputs ({"eptid": OID} map; eptid = ["abc"; ""] sent and received; a received
+   NameID-wrapped "abc") are handled correctly now *)
+Theorem c17_eptid_renamed_now :
+  roundtrip_v1 [EPTID_RENAMED] EPTID_RENAMED_AVA NAME_FORMAT_URI false true
+    = Some [("eptid", [LNameID [("format", NAMEID_FORMAT_PERSISTENT); ("value", "abc")];
+                       LNameID [("format", NAMEID_FORMAT_PERSISTENT)]])] /\
+  roundtrip [EPTID_RENAMED] EPTID_RENAMED_AVA NAME_FORMAT_URI false true = Some [("eptid", [LStr "abc"; LStr ""])] /\
+  spec_round [EPTID_RENAMED] NAME_FORMAT_URI EPTID_RENAMED_AVA
+             (roundtrip [EPTID_RENAMED] EPTID_RENAMED_AVA NAME_FORMAT_URI false true) /\
+  to_local_v1 [EPTID_RENAMED] false EPTID_RENAMED_WIRE
+    = [("eptid", [LNameID [("format", NAMEID_FORMAT_PERSISTENT); ("value", "abc")]])] /\
+  to_local [EPTID_RENAMED] false EPTID_RENAMED_WIRE = [("eptid", [LStr "abc"])] /\
+  spec_recv [EPTID_RENAMED] false EPTID_RENAMED_WIRE (to_local [EPTID_RENAMED] false EPTID_RENAMED_WIRE).
+Proof. exact eptid_renamed_now_holds. Qed.
+Print Assumptions c17_eptid_renamed_now.
+
+(* ---- C17-F2, repaired by 16472e5d: the code as it was (roundtrip_v0) violated the property ... *)
+Theorem c17_eptid_v0_refuted :
+  exists a, ~ spec_round bundled NAME_FORMAT_URI a (roundtrip_v0 bundled a NAME_FORMAT_URI false true).
+Proof. exact eptid_v0_refuted_holds. Qed.
+Print Assumptions c17_eptid_v0_refuted.
+
+(* ... and the same input (eduPersonTargetedID = ["a"; ""] through the bundled converters) is handled
+   correctly now; so is a "to"-only map *)
+Theorem c17_eptid_now :
+  roundtrip_v0 bundled EPTID_EMPTY NAME_FORMAT_URI false true
+    = Some [("eduPersonTargetedID", [LStr "a"; LNameID [("format", NAMEID_FORMAT_PERSISTENT)]])] /\
+  roundtrip bundled EPTID_EMPTY NAME_FORMAT_URI false true = Some [("eduPersonTargetedID", [LStr "a"; LStr ""])] /\
+  spec_round bundled NAME_FORMAT_URI EPTID_EMPTY (roundtrip bundled EPTID_EMPTY NAME_FORMAT_URI false true).
+Proof. exact eptid_now_holds. Qed.
+Print Assumptions c17_eptid_now.
+
+Theorem c17_eptid_to_only_now :
+  exists m, from_dict TO_ONLY_EPTID = Some m /\
+    roundtrip_v0 [m] [("eduPersonTargetedID", ["abc"])] NAME_FORMAT_URI false true
+      = Some [("edupersontargetedid", [LNameID [("format", NAMEID_FORMAT_PERSISTENT); ("value", "abc")]])] /\
+    roundtrip [m] [("eduPersonTargetedID", ["abc"; ""])] NAME_FORMAT_URI false true
+      = Some [("edupersontargetedid", [LStr "abc"; LStr ""])].
+Proof. exact eptid_to_only_now_holds. Qed.
+Print Assumptions c17_eptid_to_only_now.
